@@ -350,7 +350,17 @@ def rule_int_vars(ctx):
     from .. import comp
     comp.use(fx)
     R = ("param", "$r")
-    v = comp.canon(sym.Eval(fx, inline_depth=0).function(b, [R]))
+    def unref(t):
+        # `boxed.as_ref()` / `&*boxed`: the same term
+        if not isinstance(t, tuple):
+            return t
+        if isinstance(t, frozenset):
+            return frozenset(unref(x) for x in t)
+        t = tuple(unref(x) for x in t)
+        if t[:1] == ("call",) and len(t) == 3 and isinstance(t[1], str) and t[1].split("::")[-1] in ("as_ref", "deref", "borrow") and len(t[2]) == 1:
+            return t[2][0]
+        return t
+    v = unref(comp.canon(sym.Eval(fx, inline_depth=0).function(b, [R])))
     TERMS = ("call", "Rule::terms", (R,))
     TERM = ("at", TERMS)
     FORMS = ("fieldof", ("fieldof", R, "body"), "formulas")
